@@ -1379,6 +1379,46 @@ def owned_aliases(u, fn):
         if len(rs) != 1 or rs[0] is None:
             continue
         r = strip_casts(rs[0])
+        if r.get('k') == 'mem' and r.get('arrow') and r['f'] in FLAG_FOR_FIELD:
+            # the statement form: char *old = NULL; if (!(X->type & FLAG)) { old = X->field; }  - the one assignment sits behind the
+            # clear edge of the ownership test, and X->type is not stored to before that test
+            asg = [a for a in assignments(fn) if is_ref(a['l']) and strip_casts(a['l'])['d'] == d and a['op'] == '=' and a['r'] is rs[0]]
+            if len(asg) == 1:
+                X = expr_str(strip_casts(r['b']))
+                flag = FLAG_FOR_FIELD[r['f']]
+                cfg = fn.cfg()
+                nd = cfg.node_of_expr(asg[0]['id'])
+
+                def flag_test(x):
+                    x = strip_casts(x)
+                    if x.get('k') == 'bin' and x['op'] == '&':
+                        for (p_, q_) in ((x['l'], x['r']), (x['r'], x['l'])):
+                            p0 = strip_casts(p_)
+                            if p0.get('k') == 'mem' and p0['f'] == 'type' and expr_str(strip_casts(p0['b'])) == X and \
+                                    flag in (strip_casts(q_).get('m') or []):
+                                return True
+                    return False
+
+                def clear_edge(nn, l):
+                    if nn.kind != 'branch' or l is None:
+                        return False
+                    x = strip_casts(nn.expr)
+                    want = 'F'
+                    while x.get('k') == 'un' and x['op'] == '!':
+                        x = strip_casts(x['e'])
+                        want = 'T' if want == 'F' else 'F'
+                    if flag_test(x):
+                        return l[0] == want
+                    pc_ = cmp_parts(x)
+                    if pc_ and flag_test(pc_[0]) and pc_[2] == 0 and pc_[1] in ('==', '!='):
+                        return ((pc_[1] == '==') == (l[0] == 'T')) == (want == 'F')
+                    return False
+                if nd is not None and guarded_by(cfg, nd.id, clear_edge):
+                    tstores = [m.id for m in cfg.nodes for ev in node_effects(m)
+                               if ev.kind == 'store' and is_mem(ev.lhs, 'type') and expr_str(strip_casts(strip_casts(ev.lhs)['b'])) == X]
+                    if not any(nd.id in cfg.reachable(m) for m in tstores):
+                        out[d] = r
+            continue
         if r.get('k') != 'cond':
             continue
         t_arm, e_arm = strip_casts(r['t']), strip_casts(r['e'])
